@@ -155,7 +155,7 @@ pub fn grid_volume(r: &mut Rng) -> f64 {
 	(r.below(if F32 { 256 } else { 1 << 16 }) as f64) / 4.0
 }
 
-pub const CANDLE_CLASSES: [&str; 8] = ["walk", "flat-stretches", "zero-volume", "grid", "trends", "extreme", "clean-walk", "long-ramp"];
+pub const CANDLE_CLASSES: [&str; 10] = ["walk", "flat-stretches", "zero-volume", "grid", "trends", "extreme", "clean-walk", "long-ramp", "trend-ripple", "single-price-bars"];
 
 pub fn mk(o: f64, h: f64, l: f64, c: f64, v: f64) -> Candle {
 	Candle { open: o as V, high: h as V, low: l as V, close: c as V, volume: v as V }
@@ -196,6 +196,56 @@ pub fn candles(class: usize, seed: u64, len: usize, n_hint: usize) -> Vec<Candle
 			let (lo0, hi0) = (o.min(c), o.max(c));
 			let h = q(hi0 * (1.0 + 0.1 * step));
 			let l = q(lo0 * (1.0 - 0.1 * step));
+			out.push(mk(o, h.max(hi0), l.min(lo0), c, q(vol_base * (0.5 + r.f()))));
+		}
+		for c in &out {
+			assert!(c.validate(), "generator produced an invalid candle {c:?}");
+		}
+		return out;
+	}
+	// bars with a single trade: open = high = low = close, the price still moves from bar to bar (valid candles whose
+	// range is exactly zero for whole averaging windows); a few ordinary bars in between
+	if class == 9 {
+		let ordinary = *r.pick(&[0.0, 0.0, 0.05, 0.2]);
+		let mut p = price;
+		for _ in 0..len {
+			if !r.chance(0.15) {
+				p = q(p * (1.0 + 0.01 * r.sf())).max(price * 1e-3);
+			}
+			let v = q(vol_base * (0.5 + r.f()));
+			if r.chance(ordinary) {
+				let c = q(p * (1.0 + 0.01 * r.sf()));
+				let (lo0, hi0) = (p.min(c), p.max(c));
+				out.push(mk(p, q(hi0 * 1.002).max(hi0), q(lo0 * 0.998).min(lo0), c, v));
+				p = c;
+			} else {
+				out.push(mk(p, p, p, p, v));
+			}
+		}
+		for c in &out {
+			assert!(c.validate(), "generator produced an invalid candle {c:?}");
+		}
+		return out;
+	}
+	// steady trend with a small periodic ripple: an oscillator (fast - slow average) stays on one side of zero for the
+	// whole stream while it forms a pivot every few candles (hundreds of same-side pivots without a zero crossing)
+	if class == 8 {
+		let up = r.chance(0.6);
+		let drift = *r.pick(&[5e-4, 5e-4, 2e-4, 1e-3]) * price;
+		let amp = *r.pick(&[2e-3, 2e-3, 1e-3, 4e-3]) * price;
+		let per = *r.pick(&[2usize, 2, 3, 4, 6]);
+		let start = if up { price } else { price + drift * (len as f64 + 10.0) + 2.0 * amp };
+		let level = |i: usize| -> f64 {
+			let ph = i % per;
+			let rip = if per == 2 { if ph == 0 { 1.0 } else { -1.0 } } else { let t = ph as f64 / per as f64; if t < 0.5 { 4.0 * t - 1.0 } else { 3.0 - 4.0 * t } };
+			start + if up { drift * i as f64 } else { -drift * i as f64 } + amp * rip
+		};
+		for i in 0..len {
+			let o = q(if i == 0 { level(0) } else { out[i - 1].close as f64 });
+			let c = q(level(i + 1));
+			let (lo0, hi0) = (o.min(c), o.max(c));
+			let h = q(hi0 + 0.05 * amp * r.f());
+			let l = q(lo0 - 0.05 * amp * r.f());
 			out.push(mk(o, h.max(hi0), l.min(lo0), c, q(vol_base * (0.5 + r.f()))));
 		}
 		for c in &out {
